@@ -40,20 +40,23 @@ TextUnit(t, p) ==
       opts |-> [structNameFromTitle |-> p = "title"]]
 
 \* "identdup": an explicit identifier that equals the Go name derived for ANOTHER property (a -> A) of the same object
-Exts == {"dur", "local", "ident", "nillable", "identdup"}
+\* "identsame": TWO properties of one object ask for the same explicit identifier
+Exts == {"dur", "local", "ident", "nillable", "identdup", "identsame"}
 ExtPos == {"property", "items", "anyofmember", "definition"}
 ExtRec(x) == CASE x = "dur" -> [type |-> "time.Duration", imports |-> <<"time">>]
                [] x = "local" -> [type |-> "int64"]
                [] x = "ident" -> [identifier |-> "CustomIdent"]
                [] x = "nillable" -> [type |-> "[]byte", nillable |-> TRUE]
                [] x = "identdup" -> [identifier |-> "A"]
+               [] x = "identsame" -> [identifier |-> "Same"]
 ExtUnit(x, p) ==
   LET es == ("type" :> <<"integer">>) @@ ("goJSONSchema" :> ExtRec(x))
       xs == CASE p = "property" -> es
               [] p = "items" -> [type |-> <<"array">>, items |-> es]
               [] p = "anyofmember" -> [anyOf |-> <<Obj(<<[k |-> "m", s |-> es]>>, <<"m">>), Obj(<<[k |-> "n", s |-> Str_]>>, <<"n">>)>>]
               [] p = "definition" -> [ref |-> [k |-> "defs", n |-> "X"]]
-  IN [prop |-> "C01", fam |-> "ext", schema |-> Obj(<<[k |-> "a", s |-> Str_], [k |-> "x", s |-> xs], [k |-> "y", s |-> Str_]>>, <<"y">>),
+      ys == IF x = "identsame" THEN Str_ @@ ("goJSONSchema" :> [identifier |-> "Same"]) ELSE Str_
+  IN [prop |-> "C01", fam |-> "ext", schema |-> Obj(<<[k |-> "a", s |-> Str_], [k |-> "x", s |-> xs], [k |-> "y", s |-> ys]>>, <<"y">>),
       defs |-> IF p = "definition" THEN <<[k |-> "X", s |-> Obj(<<[k |-> "m", s |-> es]>>, <<"m">>)]>> ELSE <<>>,
       docs |-> <<JObj(<<KV("y", JStr(<<"a">>))>>)>>, nobuild |-> <<>>, opts |-> [structNameFromTitle |-> FALSE]]
 
